@@ -921,6 +921,7 @@ pub struct Engine<'p> {
     pub sigs: Vec<u64>,
     pub log: Vec<String>,
     pub prev_forest: BTreeMap<u16, RawIndex>,
+    pub final_model: Option<Model>,
 }
 
 fn vio(step: usize, key: &str, msg: String) -> CaseEnd {
@@ -928,20 +929,26 @@ fn vio(step: usize, key: &str, msg: String) -> CaseEnd {
 }
 
 pub fn run_case(case: &Case, p: &Profile) -> CaseReport {
-    let mut e = Engine { p, c: Counters::default(), sigs: Vec::new(), log: Vec::new(), prev_forest: BTreeMap::new() };
+    let world = World::new(1 << 30, false);
+    run_case_in(&world, case, p).0
+}
+
+/// Runs a case in a caller-provided environment and also returns the model of the committed state.
+pub fn run_case_in(world: &World, case: &Case, p: &Profile) -> (CaseReport, Model) {
+    let mut e = Engine { p, c: Counters::default(), sigs: Vec::new(), log: Vec::new(), prev_forest: BTreeMap::new(), final_model: None };
     let mut steps = 0usize;
-    let end = match guarded(|| e.run(case, &mut steps)) {
+    let end = match guarded(|| e.run(world, case, &mut steps)) {
         Ok(end) => end,
         Err(pmsg) => CaseEnd::Inconclusive(format!("harness panic at step {steps}: {pmsg}")),
     };
-    CaseReport { end, counters: e.c, sigs: e.sigs, steps_done: steps, log: e.log }
+    let fm = e.final_model.take().unwrap_or_default();
+    (CaseReport { end, counters: e.c, sigs: e.sigs, steps_done: steps, log: e.log }, fm)
 }
 
 impl Engine<'_> {
-    fn run(&mut self, case: &Case, steps: &mut usize) -> CaseEnd {
+    fn run(&mut self, world: &World, case: &Case, steps: &mut usize) -> CaseEnd {
         let p = self.p;
         let ck = &p.checks;
-        let world = World::new(1 << 30, false);
         let tmp_for_build = if case.tmpdir_set { Some(tempfile::tempdir_in(scratch_root()).unwrap()) } else { None };
         let mut rng = StdRng::seed_from_u64(case.seed ^ 0x5151_5151);
         let mut model = case.model.clone();
@@ -970,7 +977,7 @@ impl Engine<'_> {
                     _ => {}
                 }
                 self.c.inc(&format!("op_{}", op.kind()));
-                if let Some(end) = self.apply(&world, &mut wtxn, &mut model, op, i - 1, &mut rng, tmp_for_build.as_ref().map(|t| t.path())) {
+                if let Some(end) = self.apply(world, &mut wtxn, &mut model, op, i - 1, &mut rng, tmp_for_build.as_ref().map(|t| t.path())) {
                     return end;
                 }
             }
@@ -980,6 +987,7 @@ impl Engine<'_> {
                     return CaseEnd::Inconclusive(format!("commit failed: {e:?}"));
                 }
                 committed_model = model.clone();
+                self.final_model = Some(committed_model.clone());
                 self.c.inc("commits");
             } else {
                 wtxn.abort();
